@@ -1,4 +1,5 @@
 """C09 — the parser accepts the documented operators with the documented spelling and precedence (operator tables)."""
+import harness
 from specs import grammar
 
 
